@@ -169,6 +169,9 @@ def parse_type(s, classes):
     if m and not s.endswith('>'):
         inner = parse_type(m.group(1), classes)
         return Ty('ptr', elem=inner, const=bool(m.group(2)), ref=ref)
+    m = re.match(r'^(.*\S)\s*\[(\d+)\]$', s)
+    if m:
+        return Ty('array', c=int(m.group(2)), elem=parse_type(m.group(1), classes), ref=ref)
     const = False
     if s.startswith('const '):
         s, const = s[6:].strip(), True
@@ -701,6 +704,18 @@ class Fn:
             else:
                 self.construct_into('&' + cn, t, init)
             return
+        if t.kind == 'array':
+            if not (t.elem.kind == 'scalar'):
+                self.unsupported('local array of %s' % t.elem.kind, v)
+            if init is None:
+                self.emit('%s %s[%d];' % (t.elem.ctype(), cn, t.c))
+                return
+            il = self.strip(init)
+            if il.get('kind') != 'InitListExpr' or il.get('array_filler') or len(il.get('inner', [])) != t.c:
+                self.unsupported('array initialiser other than a complete brace list', v)
+            vals = [self.rv(e) for e in il['inner']]
+            self.emit('%s %s[%d] = {%s};' % (t.elem.ctype(), cn, t.c, ', '.join(vals)))
+            return
         if t.kind == 'other':
             self.unsupported('variable of type %s' % t.c, v)
         if init is None:
@@ -826,8 +841,10 @@ class Fn:
             return self.newexpr(n)
         if k == 'CXXDeleteExpr':
             p = self.rv(n['inner'][0])
-            self.emit('%s(%s);' % ('vf_delete_array' if n.get('isArray') or n.get('isArrayAsWritten') else
-                                   'vf_delete_object', p))
+            arr = bool(n.get('isArray') or n.get('isArrayAsWritten'))
+            # call-site obligation (C13): the deallocator matches the allocator
+            self.emit('VF_CHECK_DELETE(%s, %d);' % (p, 1 if arr else 2))
+            self.emit('%s(%s);' % ('vf_delete_array' if arr else 'vf_delete_object', p))
             return ''
         if k in ('CallExpr', 'CXXMemberCallExpr', 'CXXOperatorCallExpr'):
             return self.call(n, discard=discard)
@@ -878,6 +895,8 @@ class Fn:
             s = self.strip(sub)
             if s.get('kind') == 'StringLiteral':
                 return cstr_literal(s['value'])
+            if s.get('kind') == 'DeclRefExpr' and self.ty(s).kind == 'array':
+                return self.lv(s)
             self.unsupported('array decay of non-literal', n)
         if ck == 'NullToPointer':
             return '0'
@@ -1499,7 +1518,7 @@ class Fn:
         if name == 'seekg' and len(args) == 2:
             self.emit('vf_stream_seekg_off(%s, (long)(%s), %s);' % (r, self.rv(args[0]), self.rv(args[1])))
             return r
-        if name in ('eof', 'is_open') and not args:
+        if name in ('eof', 'is_open', 'fail') and not args:
             v = self.tmp()
             self.emit('_Bool %s = vf_stream_%s(%s);' % (v, name, r))
             return v
